@@ -76,7 +76,7 @@ def observe_one(erg, env, path, want_script=False):
         why = "not yet implemented" if "not yet implemented" in txt or "not implemented" in txt else \
             "panic" if "panicked" in txt else "compile error"
         return dict(status="declined", why=why, detail=last_line(txt))
-    script = open(py, encoding="utf-8", errors="replace").read()
+    script = open(py, encoding="utf-8", errors="replace", newline="").read()
     out = dict(script=script) if want_script else {}
     try:
         with warnings.catch_warnings():
@@ -99,8 +99,8 @@ def observe_one(erg, env, path, want_script=False):
         return dict(out, status="skipped-bytecode-crash", detail=bl)
     if (p[0], ADDR.sub("0x", p[1])) == (b[0], ADDR.sub("0x", b[1])):
         return dict(out, status="same", rc=p[0], printed=len(p[1]))
-    for _ in range(2):          # a program that does not repeat its own output (random, time, addresses) is not comparable
-        b2 = _run([PY311, pyc], d, env)
+    for _ in range(2 if p[0] == b[0] else 0):   # same exit status, different output: a program that does not repeat its own
+        b2 = _run([PY311, pyc], d, env)          # output (random, time, addresses) is not comparable
         p2 = _run([PY311, py], d, env)
         if (b2[0], ADDR.sub("0x", b2[1])) != (b[0], ADDR.sub("0x", b[1])) or (p2[0], ADDR.sub("0x", p2[1])) != (p[0], ADDR.sub("0x", p[1])):
             return dict(out, status="skipped-nondeterministic")
@@ -130,7 +130,7 @@ def transpile_only(ctx, erg, root, sources, workers=16):
         r = _run([erg, "transpile", p], d, env)
         py = os.path.join(d, "t.py")
         if r[0] == 0 and os.path.exists(py):
-            return open(py, encoding="utf-8", errors="replace").read()
+            return open(py, encoding="utf-8", errors="replace", newline="").read()
         return None
     with concurrent.futures.ThreadPoolExecutor(workers) as ex:
         return list(ex.map(one, range(len(sources))))
@@ -211,11 +211,17 @@ def check_literals(ctx, erg, model, root, n):
     exp = model.run([[10, (c[2] if c[0] != "str" else '"' + c[1] + '"'), KIND_CODE[c[0]], c[1] or ""] for c in cases])
     n_corr, first, fails = 0, None, []
     idx = 0
-    for g, sc in zip(groups, scripts):
+    todo = list(zip(groups, scripts))
+    while todo:
+        g, sc = todo.pop(0)
         lines = [m.group(1) for m in (LIT_LINE.match(l) for l in (sc or "").split("\n")) if m]
         if sc is None or len(lines) != len(g):
-            fails.append(dict(what="no script / unexpected script shape for a program of print! statements over literals",
-                              source="".join("print! %s\n" % c[2] for c in g)))
+            if len(g) > 1:      # isolate the literal(s) responsible: one program per literal
+                singles = transpile_only(ctx, erg, os.path.join(root, "lit1-%d" % idx), ["print! %s\n" % c[2] for c in g])
+                todo = [([c], s1) for c, s1 in zip(g, singles)] + todo
+                continue
+            fails.append(dict(what="no script, or not the one expected line, for a print! statement over a literal",
+                              source="print! %s\n" % g[0][2], erg_string=g[0][1], python=(sc or "").split("\n")[-3:]))
             idx += len(g)
             continue
         for c, got in zip(g, lines):
@@ -414,6 +420,11 @@ def _run_all(ctx, G, proof, erg, model, root):
         open(f, "w", encoding="utf-8").write(src)
         paths.append(f)
     cfiles = corpus_files(root)
+    if not ctx.thorough:
+        # quick: the programs of the known list plus a seeded half of the rest; thorough: every corpus program
+        listed = set(f for k in known for f in k.get("witness", {}).get("corpus", []))
+        pre = os.path.join(root, "corpus") + os.sep
+        cfiles = [f for f in cfiles if f[len(pre):] in listed or ctx.rng.random() < 0.5]
     obs = observe(ctx, erg, paths + cfiles)
     ctx.log("differential done on %d generated and %d corpus programs" % (len(paths), len(cfiles)))
 
